@@ -271,6 +271,23 @@ def equal_verdicts(a, b):
 def export_views(ctx, t, tag):
     date = __import__('datetime').datetime(2020, 1, 2, 3, 4, 5)
     tsv = t.to_tsv()
+    # the text written to a handle is the text returned (with and without
+    # a formatted metadata column)
+    import io as _io
+    md = t.metadata(axis='observation')
+    kws = [{}]
+    if md is not None and md[0]:
+        key = sorted(md[0], key=str)[0]
+        kws.append(dict(header_key=key, header_value='md:' + str(key),
+                        metadata_formatter=lambda v: 'F(%s)' % (v,)))
+    for kw in kws:
+        buf = _io.StringIO()
+        t.to_tsv(direct_io=buf, **kw)
+        if buf.getvalue().rstrip('\n') != t.to_tsv(**kw).rstrip('\n'):
+            raise Violation('C16/exports-differ/tsv-handle-vs-text', 'to_tsv '
+                            'writes %r to a handle and returns %r (%s)' %
+                            (buf.getvalue()[:300], t.to_tsv(**kw)[:300],
+                             sorted(kw)))
     doc = jsonspec.loads_strict(t.to_json('vm', creation_date=date))
     j = jsonspec.decode(doc)
     jview = (j['obs_ids'], j['samp_ids'], j['D'].tolist(),
